@@ -12,7 +12,7 @@ names = [n for n in names if ('%s_%s ' % (pid.lower(), n)) not in text and ('%s_
 if not names:
     print('nothing to add'); sys.exit(0)
 d = tempfile.mkdtemp()
-src = head + '\n' + imp + '\nSet Printing Width 100000.\nSet Printing Depth 100000.\n' + ''.join('Check %s.\n' % n for n in names)
+src = text + '\n' + imp + '\nSet Printing Width 100000.\nSet Printing Depth 100000.\n' + ''.join('Check %s.\n' % n for n in names)
 open(d + '/ck.v', 'w').write(src)
 p = subprocess.run(['coqc', '-Q', 'theories', 'QV', d + '/ck.v'], cwd=COQ, capture_output=True, text=True)
 if p.returncode:
